@@ -5,10 +5,13 @@ package transport
 
 import (
 	"context"
+	"errors"
 	"fmt"
+	"sync"
 	"testing"
 	"time"
 
+	"github.com/gorilla/websocket"
 	"github.com/smartcontractkit/wsrpc/logger"
 )
 
@@ -63,4 +66,113 @@ func TestVerifC18Transport(t *testing.T) {
 			Sig:  fmt.Sprintf("%s/%d/%d", role, rl, wt),
 			Info: map[string]interface{}{"role": role, "read_limit": rl, "write_timeout": wt, "eff_read_limit": effRL, "eff_write_timeout": effWT, "outcome": fmt.Sprintf("rl0=%v wt0=%v", rl == 0, wt == 0)}})
 	}
+}
+
+// ---- the write deadline belongs to the write: a conn which records the deadline in force at the
+// moment of every data write
+type vDlConn struct {
+	mu       sync.Mutex
+	once     sync.Once
+	closed   chan struct{}
+	deadline time.Time
+	set      bool
+	writes   []vDlWrite
+	wrote    chan struct{}
+}
+type vDlWrite struct {
+	at, deadline time.Time
+	set          bool
+}
+
+func (c *vDlConn) SetReadLimit(int64)                {}
+func (c *vDlConn) SetReadDeadline(time.Time) error   { return nil }
+func (c *vDlConn) SetPongHandler(func(string) error) {}
+func (c *vDlConn) SetWriteDeadline(t time.Time) error {
+	c.mu.Lock()
+	c.deadline, c.set = t, true
+	c.mu.Unlock()
+	return nil
+}
+func (c *vDlConn) ReadMessage() (int, []byte, error) {
+	<-c.closed
+	return 0, nil, errors.New("fake: use of closed connection")
+}
+func (c *vDlConn) WriteMessage(mt int, _ []byte) error {
+	if mt != websocket.BinaryMessage {
+		return nil
+	}
+	c.mu.Lock()
+	c.writes = append(c.writes, vDlWrite{at: time.Now(), deadline: c.deadline, set: c.set})
+	c.mu.Unlock()
+	c.wrote <- struct{}{}
+	return nil
+}
+func (c *vDlConn) WriteControl(int, []byte, time.Time) error { return nil }
+func (c *vDlConn) Close() error                              { c.once.Do(func() { close(c.closed) }); return nil }
+
+type vDlQuiet struct{ logger.Logger }
+
+func (vDlQuiet) Errorw(string, ...interface{}) {}
+func (vDlQuiet) Errorf(string, ...interface{}) {}
+
+func vC18Deadline(role string, wt, idle time.Duration) {
+	conn := &vDlConn{closed: make(chan struct{}), wrote: make(chan struct{}, 16)}
+	var write func(context.Context, []byte) error
+	var closeTr func()
+	if role == "client" {
+		c := newWebsocketClientConfig(context.Background(), vDlQuiet{logger.DefaultLogger}, "addr", ConnectOptions{WriteTimeout: wt}, func() {}, conn)
+		c.Start()
+		write, closeTr = c.Write, func() { c.Close() }
+	} else {
+		s := newWebsocketServer(conn, &ServerConfig{WriteTimeout: wt}, func() {})
+		write, closeTr = s.Write, func() { s.Close() }
+	}
+	info := map[string]interface{}{"role": role, "write_timeout_ms": wt.Milliseconds(), "idle_ms": idle.Milliseconds(), "outcome": "ok"}
+	c := vCase{Class: "write-deadline/" + role, Sig: fmt.Sprintf("write-deadline/%s/%d/%d", role, wt.Milliseconds(), idle.Milliseconds()), Info: info}
+	slack := 50 * time.Millisecond
+	for k, pause := range []time.Duration{0, idle, idle / 3} {
+		time.Sleep(pause)
+		wctx, wcancel := context.WithTimeout(context.Background(), 3*time.Second)
+		err := write(wctx, []byte("data"))
+		wcancel()
+		if err == nil {
+			select {
+			case <-conn.wrote:
+			case <-time.After(3 * time.Second):
+				err = errors.New("the pump did not write the message")
+			}
+		}
+		if err != nil {
+			c.Fail = "write-refused-on-healthy-conn/" + role
+			info["outcome"] = err.Error()
+			break
+		}
+		conn.mu.Lock()
+		w := conn.writes[len(conn.writes)-1]
+		conn.mu.Unlock()
+		left := w.deadline.Sub(w.at)
+		info[fmt.Sprintf("write%d", k)] = fmt.Sprintf("after %v idle: deadline set=%v, %v ahead at the moment of the write", pause, w.set, left)
+		if !w.set || left <= 0 || left > wt+slack {
+			c.Fail = "stale-write-deadline-after-idle/" + role
+			info["outcome"] = fmt.Sprintf("write %d (after %v without writes): the deadline in force at the moment of the write is %v ahead; expected within (0, %v]", k, pause, left, wt)
+			break
+		}
+	}
+	vEmit(c)
+	done := make(chan struct{})
+	go func() { closeTr(); close(done) }()
+	select {
+	case <-done:
+	case <-time.After(3 * time.Second):
+	}
+	conn.Close()
+}
+
+func TestVerifC18TransportDeadline(t *testing.T) {
+	var wg sync.WaitGroup
+	for _, role := range []string{"client", "server"} {
+		wg.Add(1)
+		go func(role string) { defer wg.Done(); vC18Deadline(role, 400*time.Millisecond, 1200*time.Millisecond) }(role)
+	}
+	wg.Wait()
 }
